@@ -433,8 +433,9 @@ def install_opacities(spec, scale=1.0):
     return out
 
 
-def build_model(spec, kind='transmission', **model_kw):
-    """Build planet/star/profiles/chemistry/model through the public constructors."""
+def build_model(spec, kind='transmission', share=None, **model_kw):
+    """Build planet/star/profiles/chemistry/model through the public constructors.  share: {'star': obj, 'planet': obj}
+    -- component objects of ANOTHER live model that this one uses as well (one object, two owners)."""
     from taurex.data import Planet
     from taurex.data.stellar import BlackbodyStar
     from taurex.data.profiles.pressure import SimplePressureProfile
@@ -443,6 +444,9 @@ def build_model(spec, kind='transmission', **model_kw):
     planet = Planet(planet_mass=spec['planet_mass'], planet_radius=spec['planet_radius'])
     star = BlackbodyStar(temperature=spec['star_T'], radius=spec['star_radius'],
                          distance=spec.get('star_distance', 1.0))
+    if share:
+        planet = share.get('planet', planet)
+        star = share.get('star', star)
     p_array = None
     if spec.get('pressure_route') == 'array' and spec['nlayers'] >= 2:
         # the layer pressures as the caller's OWN array (``pressure_profile_type = array``); ArrayPressureProfile works on
